@@ -176,13 +176,14 @@ func (s *Stream) ReadFrom(r io.Reader) (n int64, err error) {
 			return n, io.ErrShortBuffer
 		}
 
-		// the above read may have been unblocked by another goroutine calling stream.Close(), so we need
-		// to check that here
+		s.writingM.Lock()
+		// the above read may have been unblocked by another goroutine calling stream.Close(), and Close may
+		// also have run while we were waiting for the lock, so we need to check that here, under the lock
+		// like Write does: otherwise this frame goes out after the closing frame and the peer drops it
 		if s.isClosed() {
+			s.writingM.Unlock()
 			return n, ErrBrokenStream
 		}
-
-		s.writingM.Lock()
 		s.writingFrame.Payload = (*buf)[frameHeaderLength : frameHeaderLength+read]
 		err = s.obfuscateAndSend(*buf, frameHeaderLength)
 		s.writingM.Unlock()
